@@ -57,6 +57,8 @@ impl<T: RealNumber> NBDistribution<T> for BernoulliNBDistribution<T> {
                 forall|a: T, b: T| *(#[trigger] a.add_assign_spec(b)) == a.add_spec(b),
                 self.wf(), class_index < self.class_labels@.len(), j.vview().len() == self.n_features,
                 likelihood == bn_ll(j.vview(), self.feature_log_prob@[class_index as int]@, feature as int), //# inv-partial-sum-of-bernoulli-terms
+//@loopbody 1
+            proof { T::ops_total(); }   // all operator facts inside the body (robust against `x += y` <-> `x = x + y` rewrites)
 //@end
 //@extract src/naive_bayes/bernoulli.rs :: impl<T: RealNumber, M: Matrix<T>> NBDistribution<T, M> for BernoulliNBDistribution<T> :: classes :: ret=r
 //@spec
